@@ -10,7 +10,7 @@ from .common import pmap, result
 from .C01 import _cls
 from . import docgen
 NS = {'t': 'urn:t', 'xs': 'http://www.w3.org/2001/XMLSchema', 'xsi': 'http://www.w3.org/2001/XMLSchema-instance'}
-FAULTS = ('bad_text', 'extra_child', 'extra_attr', 'drop_attr', 'drop_child', 'swap_children', 'wild_child')
+FAULTS = ('bad_text', 'extra_child', 'extra_attr', 'drop_attr', 'drop_child', 'swap_children', 'wild_child', 'dup_field')
 _S = {}
 
 
@@ -41,6 +41,12 @@ def eval_doc(args):
                 # an element of another namespace at the position of the strict wildcard of item, without a declaration: the damaged node is that child
                 if not t2.tag.endswith('}item'): continue
                 t2.append(ET.Element('{urn:o}extra')); t2 = t2[-1]
+            elif fault == 'dup_field':
+                # the field of a unique constraint whose selector reaches two levels below its scope element gets a value another selected node has: located at that node
+                # (the value of an EARLIER node: of two equal tuples the validator reports the second, which is then the damaged one)
+                subs = list(r2.iter('{urn:t}sub')); others = [x.get('uid') for x in subs[:subs.index(t2)] if x.get('uid')] if t2 in subs else []
+                if not others: continue
+                t2.set('uid', others[0])
             elif fault == 'swap_children':
                 if len(t2) < 2 or t2[0].tag == t2[1].tag: continue
                 a = t2[0]; t2.remove(a); t2.insert(1, a)
@@ -73,8 +79,8 @@ def run(tier, seed, open_findings):
     for _ in range(n):
         k = rng.randrange(1, 4)
         docs.append('<t:r xmlns:t="urn:t" xmlns:xs="http://www.w3.org/2001/XMLSchema" xmlns:xsi="http://www.w3.org/2001/XMLSchema-instance">' + ''.join(
-            f'<t:item id="i{i}" code="{i}"><t:name>n</t:name><t:qty>1</t:qty>' + ('<t:kind>article</t:kind>' if (i + k) % 2 else '') + ('<t:val xsi:type="xs:int">5</t:val>' if (i + k) % 3 == 0 else '') + ('<t:mark m="1"/>' if (i + k) % 3 == 1 else '') + ''.join(f'<t:sub ref="i{rng.randrange(k)}" codeRef="{rng.randrange(k)}"><t:leaf>1</t:leaf></t:sub>'
-                                                                                      for _ in range(rng.randrange(3))) + '</t:item>' for i in range(k)) + '</t:r>')
+            f'<t:item id="i{i}" code="{i}"><t:name>n</t:name><t:qty>1</t:qty>' + ('<t:kind>article</t:kind>' if (i + k) % 2 else '') + ('<t:val xsi:type="xs:int">5</t:val>' if (i + k) % 3 == 0 else '') + ('<t:mark m="1"/>' if (i + k) % 3 == 1 else '') + ''.join(f'<t:sub ref="i{rng.randrange(k)}" codeRef="{rng.randrange(k)}" uid="{10 * i + j_}"><t:leaf>1</t:leaf></t:sub>'
+                                                                                      for j_ in range(rng.randrange(3))) + '</t:item>' for i in range(k)) + '</t:r>')
     jobs = [(ver, d) for d in docs for ver in ('1.0', '1.1')]
     res = pmap(eval_doc, jobs, chunk=1)
     fails = [dict(case=dict(doc=r['doc'], ver=r['ver'], fault=b[0]), observed=b[1], required='invalid; unique path to error.elem; an error at the node or its parent; none outside chain/subtree') for r in res for b in r['bad']]
